@@ -4,7 +4,7 @@
 // terminal_is_recognised).  One instantiation per format because the hook structs are private.
 
 use super::*;
-use crate::verif_common::{label_round_trip, instr_round_trip, instr_size_field, terminal_is_recognised, Stored, SizeField};
+use crate::verif_common::{instr_time_is_stored, label_round_trip, instr_round_trip, instr_size_field, terminal_is_recognised, Stored, SizeField};
 
 macro_rules! c03 {
     ($name:ident, $unwind:literal, $body:expr) => {
@@ -29,6 +29,9 @@ c03!(c03_ecl10_size_field, 4, instr_size_field(&ModernEclHooks, Stored { param_m
 
 //@ C03 c03_label_ecl10 quick default ECL TH10+ label encoding (signed relative offset): round trip for every pair of offsets below 2^31
 c03!(c03_label_ecl10, 2, label_round_trip(&ModernEclHooks, 1));
+
+//@ C13 c13_ecl10_time_stored quick default ECL (TH10+): if write_instr accepts an instruction, the time read back from the written bytes is the requested time, for every i32 time (a time that does not fit the field must be rejected, never stored differently)
+c03!(c13_ecl10_time_stored, 8, instr_time_is_stored::<4>(&ModernEclHooks, Stored { param_mask: true, difficulty: true, extra_arg: false, pop_and_arg_count: true, maybe_terminal: false, ignore_param_mask: false }, |_| true));
 
 #[cfg(kani)]
 #[path = "/verif/.cache/playback/ecl_10.rs"]
